@@ -841,6 +841,22 @@ fn fam_lowlevel(o: &mut Out, quick: bool, rng: &mut Rng) {
                 c.tags = vec!["modify_same_every_callback".into()];
                 o.run(c);
             }
+            // Radau started from exact data on a stiff nonlinear relaxation with an oversized first step: slowly converging
+            // Newton iterations
+            if *m == "RADAU" && si == 0 {
+                for fs in [0.2, 0.7, 1.5, 0.4, 1.0] {
+                    for api in ["low", "solve_ivp"] {
+                        let mut c = base(m, Problem::new("cubrelax", 100.0), 0.0, 3.0);
+                        c.api = api.into();
+                        c.rtol = vec![1e-3];
+                        c.atol = vec![1e-3];
+                        c.first_step = Some(fs);
+                        c.jac = "user".into();
+                        c.tags = vec!["slow_newton".into()];
+                        o.run(c);
+                    }
+                }
+            }
             // Radau: an oversized first step on a nonlinear problem - the Newton iteration fails and the halved step is accepted
             if *m == "RADAU" && si == 0 {
                 for (y0, fs) in [(1.0e-3, 3.5), (1.0e-4, 4.5), (1.0e-3, 7.0), (1.0e-2, 2.5)] {
